@@ -14,6 +14,8 @@ use p2panda_core::{Body, Hash, Header, Operation, Signature, SigningKey, Verifyi
 use p2panda_store::SqliteStore;
 use vh_common::{Args, Report, Rng, json, quiet_panics};
 
+use crate::par::{Local, run_cases};
+
 use crate::common::*;
 
 const RULE: &str = "Valid logs (3-5 ops, extension types unit/struct/tuple) are built from seeded keys; the \
@@ -309,7 +311,8 @@ fn gen_mutants<E: RefExt>(
             }
             None => {
                 let mut m = base.clone();
-                m.body = Some(Body::new(&rng.bytes(1 + rng.usize_below(20))));
+                let n = 1 + rng.usize_below(20);
+                m.body = Some(Body::new(&rng.bytes(n)));
                 g.one("body", "attached-to-bodyless".into(), m);
                 let mut m = base.clone();
                 m.body = Some(Body::new(&[]));
@@ -341,7 +344,7 @@ fn gen_mutants<E: RefExt>(
 }
 
 struct Ctx<'a> {
-    rep: &'a mut Report,
+    rep: &'a mut Local,
     seed: u64,
     case: u64,
     mutants: u64,
@@ -391,6 +394,7 @@ async fn evaluate<E: RefExt>(
     let changed = *before != after;
     let definite = !matches!(expect, Expect::Unjudged);
     cx.rep.bump(&format!("outcome_{}", out.tag()), 1);
+    cx.rep.bump(&format!("candidates_{}{}", m.field, if m.resigned { "_resigned" } else { "" }), 1);
     match (&expect, &out) {
         (Expect::Reject(why), o) if o.accepted() => {
             cx.rep.violation(
@@ -463,7 +467,7 @@ async fn evaluate<E: RefExt>(
     }
     let key = definite.then(|| (E::NAME, m.field, m.kind.clone(), m.resigned, class, phase));
     cx.rep.case(key);
-    if cx.rep.want_sample() && cx.mutants % 997 == 1 {
+    if cx.rep.want_sample() && cx.mutants % 97 == if m.resigned { 2 } else { 1 } {
         cx.rep.sample(json!({
             "ext": E::NAME, "phase": phase, "field": m.field, "kind": m.kind,
             "resigned": m.resigned, "reference": match expect {
@@ -480,7 +484,7 @@ async fn evaluate<E: RefExt>(
 }
 
 async fn restore<E: RefExt>(
-    rep: &mut Report,
+    rep: &mut Local,
     store: &SqliteStore,
     topic: &TopicId,
     prefix: &[Operation<E>],
@@ -610,7 +614,10 @@ async fn run_arbitrary<E: RefExt>(cx: &mut Ctx<'_>, count: u64) {
         let body: Option<Vec<u8>> = match rng.below(4) {
             0 => None,
             1 => Some(vec![]),
-            _ => Some(rng.bytes(1 + rng.usize_below(12))),
+            _ => {
+                let n = 1 + rng.usize_below(12);
+                Some(rng.bytes(n))
+            }
         };
         let claimed = body.clone().filter(|b| !b.is_empty());
         let payload_size = match rng.below(6) {
@@ -735,43 +742,36 @@ async fn probe_seq_overflow(rep: &mut Report, seed: u64) {
 pub fn run(args: &Args) {
     quiet_panics();
     let mut rep = Report::new(args, RULE, 150);
-    let target = args.n(4_000, 200_000);
-    let arbitrary = args.n(600, 30_000);
-    let rt = runtime();
-    rt.block_on(async {
-        let mut cx = Ctx {
-            rep: &mut rep,
-            seed: args.seed,
-            case: 0,
-            mutants: 0,
-        };
-        while cx.mutants < target {
-            match cx.case % 3 {
-                0 => run_case::<ExtS>(&mut cx).await,
-                1 => run_case::<()>(&mut cx).await,
-                _ => run_case::<ExtT>(&mut cx).await,
+    let base = args.n(60, 1000);
+    let arbitrary = args.n(6, 150);
+    let per_arbitrary = 200;
+    run_cases(args, &mut rep, base + arbitrary, |local, c, rt| {
+        rt.block_on(async {
+            let mut cx = Ctx {
+                rep: local,
+                seed: args.seed,
+                case: c,
+                mutants: 0,
+            };
+            if c < base {
+                match c % 3 {
+                    0 => run_case::<ExtS>(&mut cx).await,
+                    1 => run_case::<()>(&mut cx).await,
+                    _ => run_case::<ExtT>(&mut cx).await,
+                }
+            } else {
+                match c % 3 {
+                    0 => run_arbitrary::<ExtS>(&mut cx, per_arbitrary).await,
+                    1 => run_arbitrary::<()>(&mut cx, per_arbitrary).await,
+                    _ => run_arbitrary::<ExtT>(&mut cx, per_arbitrary).await,
+                }
             }
-            cx.case += 1;
-            if cx.rep.inconclusive.len() > 5 {
-                break;
-            }
-        }
-        let base_cases = cx.case;
-        let per = 200;
-        let mut done = 0;
-        while done < arbitrary {
-            match cx.case % 3 {
-                0 => run_arbitrary::<ExtS>(&mut cx, per).await,
-                1 => run_arbitrary::<()>(&mut cx, per).await,
-                _ => run_arbitrary::<ExtT>(&mut cx, per).await,
-            }
-            cx.case += 1;
-            done += per;
-        }
-        let total = cx.mutants;
-        rep.extra("base_logs", json!(base_cases));
-        rep.extra("candidates_ingested", json!(total));
-        probe_seq_overflow(&mut rep, args.seed).await;
+            let n = cx.mutants;
+            local.bump("candidates_ingested", n);
+        })
     });
+    rep.extra("base_logs", json!(base));
+    rep.extra("arbitrary_header_batches", json!(arbitrary));
+    runtime().block_on(probe_seq_overflow(&mut rep, args.seed));
     rep.finish(args);
 }
